@@ -23,7 +23,7 @@ CLAIMS["C02"] = {
 CLAIMS["C03"] = {
     "text": "SamFlag.tla: 4096 states x 24 setter actions, action property SetterExact; every one of the 98 304 transitions is executed on the real sam.Flag (setter result and all 12 accessors against the SAM specification's bit table written in the module). Sam.tla: write -> split on TAB -> ParseLine round trip for the baseline record with <= 2 fields replaced from pools (quote-leading, '@', ':', empty, negative ints) and <= 2 (3) typed tags; files of headers, records and 8 kinds of malformed lines with LF/CRLF/blank lines (headers verbatim, per-line errors, Reader = ReaderHeader minus headers); byte-level line loop = line denotation. The model's lines and files are read by the real readers. Seeded real records (all field bytes but TAB/CR/LF, extreme ints, 0-8 tags of all five types incl. NaN/Inf/-0/subnormal) and files are judged by Trace_Sam (one line, field count, tags sorted, spec reader decodes the real writer's line, real readers agree with the spec's denotation, round trip by float atoms).",
     "ref": "DESIGN.md section 6 C03",
-    "note": "Trusted: TLC, strconv (ints as canonical text, floats as atoms plus a table of tokens ParseFloat accepts), projection. Tag keys are two characters.",
+    "note": "Trusted: TLC, strconv (ints as canonical text, floats as atoms plus a table of tokens ParseFloat accepts), projection. All tag keys of a record have one length (two in the SAM specification; 1, 3, 4 are exercised too), so that 'sorted' is unambiguous.",
     "technique": T,
 }
 CLAIMS["C04"] = {
@@ -39,7 +39,7 @@ CLAIMS["C05"] = {
     "technique": T,
 }
 CLAIMS["C06"] = {
-    "text": "Stream.tla composes an io.Reader that cuts the input into arbitrary Read results (incl. data together with EOF), bufio.Reader's fill/ReadByte with its pending error, the byte machine of fasta.read() and the iterator layers; TLC explores every schedule of every input <= 5 (thorough 7) bytes and checks SchedFree (items = denotation, whatever the schedule). StreamLines.tla does the same for the buffer-level models of bufio.Scanner (composed with the FASTQ four-line machine) and bufio.ReadString (SAM, BED), inputs <= 5 (thorough 8 / 7) bytes. Sessions recorded from all six readers (FASTA, FASTQ, SAM Reader and ReaderHeader, BED, Newick) on well-formed inputs (incl. two larger than bufio's buffer), mutated and random inputs under 13 read schedules, CRLF conversion, File on a plain and a gzip file and on an unopenable path are judged by Trace_Cross against the in-memory reference run.",
+    "text": "Stream.tla composes an io.Reader that cuts the input into arbitrary Read results (incl. data together with EOF), bufio.Reader's fill/ReadByte with its pending error, the byte machine of fasta.read() and the iterator layers; TLC explores every schedule of every input <= 5 (thorough 7) bytes and checks SchedFree (items = denotation, whatever the schedule). StreamLines.tla does the same for the buffer-level models of bufio.Scanner (composed with the FASTQ four-line machine) and bufio.ReadString (SAM, BED), inputs <= 5 (thorough 8 / 7) bytes. Sessions recorded from all six readers (FASTA, FASTQ, SAM Reader and ReaderHeader, BED, Newick) on well-formed inputs (incl. two larger than bufio's buffer), mutated and random inputs under 13 read schedules, CRLF conversion, File on a plain, a gzip and a zstd file and on an unopenable path are judged by Trace_Cross against the in-memory reference run; so is every text the exhaustive codec models emit (17 000 valid and corrupted FASTQ / SAM / BED texts in the quick tier, FASTA and Newick too in the thorough tier), decoded whole, byte by byte and in chunks of 2, 3 and 7.",
     "ref": "DESIGN.md section 6 C06",
     "note": "Trusted: TLC, gzip/aio (exercised), interning of items (injective projection). The clause 'well-formed input decodes to its denotation' is discharged per format in C01-C05.",
     "technique": T,
